@@ -24,6 +24,8 @@ static occa::memory memOf(const std::string &id) {
   else if (id == "mem:float2") m = device.malloc(16, occa::dtype::float2);
   else if (id == "mem:S2") m = device.malloc(16, S2);
   else if (id == "mem:C") m = device.malloc(16, C);
+  else if (id.compare(0, 4, "mem:") == 0 && &occa::dtype_t::getBuiltin(id.substr(4)) != &occa::dtype::none)
+    m = device.malloc(16, occa::dtype_t::getBuiltin(id.substr(4)));    // any registered builtin by name
   else { fprintf(stderr, "unknown memory %s\n", id.c_str()); exit(2); }
   mems[id] = m;
   return m;
